@@ -250,5 +250,95 @@ def contiguity_lemma(index):
 
 
 UNITS.append(ValidateSortingLevel0())
+
+
+class ValidateSortingTwoLevels(Contract):
+    """validate_data_sorting for two grouping columns: returns normally iff the first column's values AND the composite
+    (first, second) keys (null as a value) each have only fresh run starts; otherwise ValueError.
+    Precondition (injectivity of the code's string key): the key built by casting to string, replacing null by '__NULL__' and joining
+    with '|' distinguishes different (first, second) pairs - i.e. no value contains '|', none prints as '__NULL__', and the string cast is
+    injective on each column's values.  Outside it the real function can refuse contiguous data (e.g. ('a|b','c') and ('a','b|c'))."""
+    target = "services/grouping_service.py::GroupingService.validate_data_sorting"
+    serves = ["C13", "C01"]
+    models = [ExprModel(), PolarsModel(), StrModel()]
+
+    @property
+    def handlers(self):
+        h = dict(HANDLERS)
+
+        def row_named(I, st, args, kwargs, node):
+            # df.row(j, named=True) is only used to word the error message
+            from pyvc.values import DictObj
+            return st.alloc(DictObj(items={"g0": z3.Const(fresh_name("rv"), ValSort), "g1": z3.Const(fresh_name("rv"), ValSort)}, fresh=True))
+        h["df.row"] = row_named
+        return h
+
+    def setup(self, c):
+        from pyvc.libmodels.polars_expr import keycat
+        c.bind("self", _svc(c))
+        df = fresh_df(c.st, "df")
+        c.bind("df", df)
+        c.bind("group_by", c.alloc(ListObj(items=["g0", "g1"], fresh=False)))
+        c.bind("page_by", None)
+        c.bind("subline_by", None)
+        d = c.obj(df)
+        g0, g1 = COLIDX(lit("g0")), COLIDX(lit("g1"))
+        c.requires("columns_exist", And(g0 >= 0, g0 < d.w, d.colname(g0) == lit("g0"), g1 >= 0, g1 < d.w, d.colname(g1) == lit("g1"), g0 != g1))
+        K = keycat(2)
+        a0, a1, b0, b1 = (z3.Const(n, ValSort) for n in ("ka0", "ka1", "kb0", "kb1"))
+        nv = lambda x: If(val_null(x), NULLV, x)
+        # NOT used by the proof obligations (they speak about the code's key itself); it is what makes "equal keys" mean "equal pairs":
+        c.v["injectivity_assumption"] = ForAll([a0, a1, b0, b1], (K(nv(a0), nv(a1)) == K(nv(b0), nv(b1))) == And(same_key(a0, b0), same_key(a1, b1)))
+        c.ctx.assume_lib("composite group key (cast to string, '__NULL__' for null, joined by '|') is injective on the pairs of values: no value contains "
+                         "'|' or prints as '__NULL__' (stated precondition of ValidateSortingTwoLevels; not used in its obligations)")
+        c.requires("composite_key_is_never_null", ForAll([a0, a1], Not(val_null(K(a0, a1)))))
+        key = lambda k: K(nv(d.cell(k, g0)), nv(d.cell(k, g1)))
+        c.v.update(d=d, val0=lambda k: d.cell(k, g0), key=key)
+
+    def fresh_starts(self, f, upto):
+        j, k = z3.Ints("vj vk")
+        return ForAll([j], Implies(And(1 <= j, j < upto, f(j) != f(j - 1)), ForAll([k], Implies(And(0 <= k, k < j), f(k) != f(j)))))
+
+    def setup_loops(self, c):
+        d = c.v["d"]
+
+        def mk_inv(f, cur_name, seen_name):
+            def inv(vv):
+                idx = vv.i + 1
+                seen = vv.state.obj(getattr(vv, seen_name))
+                cur = getattr(vv, cur_name)
+                x = z3.Const("sx", ValSort)
+                k = z3.Int("sk")
+                mem = (lambda t: seen.member(Opt(val_null(t), t))) if seen.items is None else (lambda t: Or(*[norm_val(it) == t for it in seen.items]))
+                return {"index": And(idx >= 1, idx <= d.n),
+                        "current_is_previous_row": And(norm_val(cur) == f(idx - 1),
+                                                       cur.isnone == val_null(cur.payload) if isinstance(cur, Opt) else z3.BoolVal(True)),
+                        "seen_is_the_set_so_far": ForAll([x], mem(x) == Exists([k], And(0 <= k, k < idx, f(k) == x))),
+                        "every_run_start_so_far_was_fresh": self.fresh_starts(f, idx)}
+            return inv
+
+        def havoc_set(I, st, name, ref):
+            F = z3.Function(fresh_name("seen"), ValSort, z3.BoolSort())
+            o = st.obj(ref)
+            o.items, o.member = None, (lambda t, F=F: F(norm_val(t)))
+        self.loops = {3: LoopSpec(inv=mk_inv(c.v["val0"], "current_value", "seen_values"), havoc={"seen_values": havoc_set, "current_value": T.Option(T.Val)}),
+                      6: LoopSpec(inv=mk_inv(c.v["key"], "current_key", "seen_keys"), havoc={"seen_keys": havoc_set, "current_key": T.Option(T.Val)})}
+        self.loops_optional = {3, 6}
+
+    @property
+    def raises(self):
+        def r(c, out):
+            d, v0, key = c.v["d"], c.v["val0"], c.v["key"]
+            j, k = z3.Ints("rj rk")
+            bad = lambda f: Exists([j, k], And(1 <= j, j < d.n, 0 <= k, k < j, f(j) != f(j - 1), f(k) == f(j)))
+            return {"only_when_a_level_is_not_contiguous": Or(bad(v0), bad(key))}
+        return {"ValueError": r}
+
+    def ensures(self, c, out):
+        d = c.v["d"]
+        return {"returns_only_if_both_levels_have_fresh_run_starts": And(self.fresh_starts(c.v["val0"], d.n), self.fresh_starts(c.v["key"], d.n))}
+
+
+UNITS.append(ValidateSortingTwoLevels())
 from pyvc.units import LemmaUnit
 LEMMAS = [LemmaUnit("contiguity", contiguity_lemma)]
